@@ -105,8 +105,8 @@ def check(case, ctx):
             ctx.fail(f'diagnostics raised {type(e).__name__} on a marker-less graph under {name}', observed=str(e)[:200], expected='None / False')
             return
         ctx.transitions += 1
-        if len(c2) != len(want['triples']) or any(c is not None and c not in variables for c in c2):
-            ctx.fail('node_contexts on a marker-less graph: wrong length or not a variable/None', observed=list(c2))
+        if len(c2) != len(want['triples']) or any(c is not None and not (c == tr[0] or (c == tr[2] and tr[1] != ':instance' and c in variables)) for c, tr in zip(c2, want['triples'])):
+            ctx.fail('node_contexts on a marker-less graph: wrong length, or a context that is neither unknown nor an end of its triple', observed=list(c2))
             return
         ctx.nontrivial += 1
     ctx.outcome(repr(t))
